@@ -196,7 +196,7 @@ Proof.
       * intros x Hx. apply H3. rewrite rev_append_rev. apply in_or_app. right. exact Hx.
 Qed.
 
-(* the definitions that come first: compile_main of main, or (fix <commitmain>, main is called) the entry point
+(* the definitions that come first: compile_main of main, or (fix f929eb7, main is called) the entry point
    compiled by compile_main followed by main compiled by compile_def *)
 Lemma compile_main_group_inv : forall lg called d codata ul g ul',
   compile_main_group lg called d codata ul = Ok (g, ul') ->
@@ -327,7 +327,7 @@ Section Prog.
   Qed.
 End Prog.
 
-(* ---------- the entry point of a program that calls main (fix <commitmain>):
+(* ---------- the entry point of a program that calls main (fix f929eb7):
    def main<n>(params) { main(params, mu~x. exit x) } ---------- *)
 Lemma nodup_str_nd0 : forall l, nodup_str l = true -> NoDup l.
 Proof.
